@@ -1,6 +1,7 @@
 """C11 — load and dump functions are stateless, isolated, and leave PyYAML untouched."""
 import copy
 import io
+import os
 import threading
 
 import classmodel as CM
@@ -227,6 +228,9 @@ def explore(ctx):
     shape_cases(ctx, yatiml, tr)
     defaults_family(ctx, yatiml)
     plugins_family(ctx, yatiml)
+    pristine_pyyaml(ctx)
+    import yaml as _y
+    odd_helper_calls(ctx, _y, yatiml)
     nhist = ctx.budget(40, 600)
     for h in range(nhist):
         funcs = []       # (kind, model, fn, type, inputs)
@@ -401,6 +405,102 @@ def defaults_family(ctx, yatiml):
             diff = [k for k in first if first[k] != second[k]]
             ctx.violation('a dump result depends on what was dumped before: {!r} vs {!r}'.format(
                 first[diff[0]], second[diff[0]]), dict(key='history-defaults', classes=text))
+
+
+PRISTINE = r'''
+import sys, json, pathlib, collections
+import yaml
+if len(sys.argv) > 1 and sys.argv[1] == 'with-yatiml':
+    import yatiml
+out = {}
+for name, cls in [('SafeLoader', yaml.SafeLoader), ('SafeDumper', yaml.SafeDumper), ('Loader', yaml.Loader),
+                  ('Dumper', yaml.Dumper), ('Resolver', yaml.resolver.Resolver),
+                  ('SafeRepresenter', yaml.representer.SafeRepresenter),
+                  ('SafeConstructor', yaml.constructor.SafeConstructor)]:
+    for attr in ('yaml_constructors', 'yaml_multi_constructors', 'yaml_representers',
+                 'yaml_multi_representers', 'yaml_implicit_resolvers', 'yaml_path_resolvers'):
+        v = getattr(cls, attr, None)
+        if isinstance(v, dict):
+            out[name + '.' + attr] = sorted((repr(k), len(x) if isinstance(x, list) else 1) for k, x in v.items())
+def probe(fn):
+    try:
+        return repr(fn())
+    except Exception as e:
+        return type(e).__name__
+vals = [pathlib.PurePosixPath('/a/b'), pathlib.Path('/tmp/x'), collections.OrderedDict(a=1), {'a': [1, 'yes', 1.5, None]},
+        '1e5', (1, 2), {1, 2}, b'x', 1.5, float('inf'), 'true', 'é']
+for i, v in enumerate(vals):
+    out['safe_dump.%d' % i] = probe(lambda: yaml.safe_dump(v))
+for i, t in enumerate(['1e5', 'yes', '1.5', '.inf', '0x10', '1_000', '2001-01-01', '!!python/name:os.system', '~', '+.5']):
+    out['safe_load.%d' % i] = probe(lambda: yaml.safe_load(t))
+print(json.dumps(out, sort_keys=True))
+'''
+
+
+def pristine_pyyaml(ctx):
+    """importing yatiml leaves PyYAML as it is: registries and the behaviour of safe_load / safe_dump in a
+    process that imported yatiml equal those of a process that did not"""
+    import json
+    import subprocess
+    import sys
+    from common import REPO
+    outs = []
+    for arg in ([], ['with-yatiml']):
+        p = subprocess.run([sys.executable, '-c', PRISTINE] + arg, env=dict(os.environ, PYTHONPATH=REPO),
+                           stdout=subprocess.PIPE, stderr=subprocess.PIPE, universal_newlines=True, timeout=120)
+        if p.returncode != 0:
+            ctx.notes.append('pristine probe failed: ' + p.stderr[-300:])
+            return
+        outs.append(json.loads(p.stdout))
+    ctx.case(('pristine-pyyaml',), nontrivial=True)
+    ctx.count('pristine_probes')
+    diff = [k for k in outs[0] if outs[0][k] != outs[1].get(k)]
+    if diff:
+        k = diff[0]
+        ctx.violation('importing yatiml changes PyYAML: {} is {} without yatiml and {} with it'.format(
+            k, str(outs[0][k])[:150], str(outs[1].get(k))[:150]), dict(key='pristine:' + k, differing=diff[:10]))
+
+
+def odd_helper_calls(ctx, yaml, yatiml):
+    """helper calls with arguments the documentation does not foresee may fail, but must not leave
+    anything behind in module-level tables that other functions read"""
+    from collections import UserString
+
+    class Ident(str):
+        pass
+
+    class Ident2(UserString):
+        pass
+    before = base_snapshot(yaml, yatiml)
+    mark = yaml.error.Mark('x', 0, 0, 0, None, 0)
+    for v in (Ident('ab'), Ident2('cd'), object(), (1, 2), b'x', 3 + 4j):
+        for mk in (lambda: yaml.ScalarNode('tag:yaml.org,2002:str', 'x', mark, mark),
+                   lambda: yaml.ScalarNode('!Ident', 'x', mark, mark)):
+            node = yatiml.Node(mk())
+            for call in (lambda: node.set_value(v), lambda: node.set_attribute('a', v),
+                         lambda: node.is_scalar(type(v)), lambda: node.has_attribute_type('a', type(v))):
+                try:
+                    call()
+                except Exception:  # noqa
+                    pass
+                ctx.count('odd_helper_calls')
+    after = base_snapshot(yaml, yatiml)
+    ctx.case(('odd-helper-calls',), nontrivial=True)
+    if after != before:
+        diff = [k for k in before if before[k] != after.get(k)] + [k for k in after if k not in before]
+        ctx.violation('a helper call with an unusual argument changed shared state: {}'.format(diff[:3]),
+                      dict(key='odd-helper:' + str(diff[:1])))
+        return
+    # and a class registered with a load function afterwards is still built as that class
+    load = yatiml.load_function(Ident, Ident)
+    try:
+        got = load('ab12')
+        ok = type(got) is Ident
+    except Exception as e:  # noqa
+        got, ok = type(e).__name__, False
+    if not ok:
+        ctx.violation('after helper calls with unusual arguments load_function(Ident) builds {!r}'.format(got),
+                      dict(key='odd-helper:leak'))
 
 
 def plugins_family(ctx, yatiml):
